@@ -3,6 +3,7 @@ import RR.Proof.Hand
 import RR.Proof.Conv
 import RR.Proof.ResamplerSpec
 import RR.Proof.V2S
+import RR.Proof.FftStream
 
 /-!
 # C10 — exactly-specified blocks compute their documented function
@@ -138,6 +139,32 @@ theorem c10_v2s_call (p : List Nat) (hp : ∀ x ∈ p, x + 1 < pktBase) (rest : 
         (r.2.produced.getD 0 ⟨[], []⟩).tags = v2sTags 0 [p]) :=
   v2s_call p hp rest f
 
+/-- **FFT-stream framing, every schedule** (any frame size > 0, any engine): the block only ever consumes whole
+frames, and its output is the engine's transform of each consumed frame, in order — no sample lost, duplicated
+or re-framed, however the input is cut into read windows and however much output space there is. -/
+theorem c10_fft_stream (engine : List Nat → List Nat) (size : Nat) (hs : 0 < size) (X : List Nat)
+    (sched : List (Nat × Nat)) :
+    let r := drive1 (Dsp.fftStreamBlock engine size) X () 0 [] sched
+    ∃ q, r.2.1 = q * size ∧ q * size ≤ X.length ∧ r.2.2 = Dsp.fftStreamSpec engine size X q := by
+  have := Dsp.fftStream_drive engine size hs X sched 0 (by simp)
+  simpa [Dsp.fftStreamSpec, Dsp.framesOf] using this
+
+/-- FFT-stream, one call: it asks for exactly one frame of input or one frame of output room when that is what
+is missing, and otherwise transforms at least one frame. -/
+theorem c10_fft_stream_call (engine : List Nat → List Nat) (size : Nat) (hs : 0 < size) (X : List Nat) (q a f : Nat)
+    (hq : q * size ≤ X.length) :
+    let w := (X.drop (q * size)).take a
+    let r := Dsp.fftStreamWork engine size () ⟨[⟨w, [], true⟩], [⟨f, true⟩]⟩
+    r.2.verdict ≠ .panic ∧ (r.2.verdict = .waitIn 0 size → w.length < size) ∧
+    (r.2.verdict = .waitOut 0 size → f < size) ∧ (r.2.verdict = .again → size ≤ r.2.consumed.getD 0 0) := by
+  intro w r
+  obtain ⟨m, h1, _, _, _, h5, h6, h7, h8⟩ := Dsp.fftStream_step engine size hs X q a f hq
+  refine ⟨h5, h6, h7, fun h => ?_⟩
+  have := h8 h
+  show size ≤ r.2.consumed.getD 0 0
+  rw [h1]
+  exact Nat.le_mul_of_pos_left size this
+
 /-- ConstantSource: every call fills all the free space with the value and reports a wait on its output. -/
 theorem c10_constant_source (val f : Nat) :
     let r := constWork val () ⟨[], [⟨f, true⟩]⟩
@@ -147,5 +174,8 @@ theorem c10_constant_source (val f : Nat) :
 example : (driveV2S [[1, 2, 3], [], [4]] 0 [] [] [(1, 2), (3, 3), (2, 0), (2, 5)]) =
     (3, [1, 2, 3, 4], [⟨0, v2sStartKey, 3⟩, ⟨2, v2sEndKey, 3⟩, ⟨3, v2sStartKey, 1⟩, ⟨3, v2sEndKey, 1⟩]) := by
   decide +kernel
+
+example : (drive1 (Dsp.fftStreamBlock List.reverse 2) [1, 2, 3, 4, 5] () 0 [] [(1, 9), (3, 9), (5, 1), (5, 9)]).2 =
+    (4, [2, 1, 4, 3]) := by decide
 
 end RR.Props.C10
